@@ -2,6 +2,7 @@ package c14
 
 import (
 	"fmt"
+	"hash/fnv"
 	"math/rand"
 	"strconv"
 	"strings"
@@ -89,6 +90,76 @@ func without(T *model.Node, p []seg, ph *model.Node) *model.Node {
 		delete(par.D, last.key)
 	}
 	return c
+}
+
+// flattener spells a tree with dotted keys (to be split by PathSep): every
+// edge into a non-empty dictionary or list is either folded into the key of
+// what lies below ("a.b.c": 1, "a.l.0": 1, "a.l.1.k": 2; lists are always
+// spelled completely) or kept as a nested value. The decision is a function
+// of (seed, absolute path), so that the valid twin and the faulty tree are
+// spelled alike wherever they agree. The namespaces and lists behind folded
+// edges exist only implicitly in the input.
+type flattener struct{ seed uint64 }
+
+func (f flattener) fold(abs string) bool {
+	h := fnv.New64a()
+	var b [8]byte
+	for i := range b {
+		b[i] = byte(f.seed >> (8 * uint(i)))
+	}
+	h.Write(b[:])
+	h.Write([]byte(abs))
+	return h.Sum64()%3 != 0
+}
+
+func (f flattener) dict(n *model.Node, abs string) *model.Node {
+	out := model.Dict()
+	for _, k := range n.SortedKeys() {
+		f.emit(out, k, n.D[k], joinPath(abs, k))
+	}
+	return out
+}
+
+func joinPath(a, b string) string {
+	if a == "" {
+		return b
+	}
+	return a + "." + b
+}
+
+func (f flattener) emit(out *model.Node, key string, c *model.Node, abs string) {
+	if c != nil && c.Kind == model.KSub && (len(c.D) > 0 || len(c.A) > 0) && f.fold(abs) {
+		if len(c.A) > 0 {
+			for i, e := range c.A {
+				f.emit(out, key+"."+strconv.Itoa(i), e, abs+"."+strconv.Itoa(i))
+			}
+		} else {
+			for _, k := range c.SortedKeys() {
+				f.emit(out, key+"."+k, c.D[k], abs+"."+k)
+			}
+		}
+		return
+	}
+	out.D[key] = f.nested(c, abs)
+}
+
+func (f flattener) nested(c *model.Node, abs string) *model.Node {
+	if c == nil || c.Kind != model.KSub {
+		return c.Copy()
+	}
+	if c.HasA || len(c.A) > 0 {
+		n := model.List()
+		for i, e := range c.A {
+			n.A = append(n.A, f.nested(e, abs+"."+strconv.Itoa(i)))
+		}
+		return n
+	}
+	return f.dict(c, abs)
+}
+
+// flat spells a top-level operand; lists at the top level stay as they are.
+func (f flattener) flat(t *model.Node) *model.Node {
+	return f.nested(t, "")
 }
 
 func firstIndex(p []seg) int {
@@ -210,6 +281,14 @@ func planRoutes(r *rand.Rand, V *model.Node, p []seg, f fault, base string) []ro
 			}
 			return built{cfg: c, desc: desc}, nil
 		}})
+		if V.Kind == model.KSub && !V.HasA {
+			// the setting is missing below a namespace that exists only implicitly
+			fl := flattener{seed: r.Uint64()}
+			out = append(out, route{"dotted-keys", func(T *model.Node) (built, error) {
+				c, desc, err := mergeChain([]*model.Node{fl.flat(T)}, []string{src(0)}, nil, "dotted-keys")
+				return built{cfg: c, desc: desc, exactSrc: src(0)}, err
+			}})
+		}
 		return out
 	}
 
@@ -243,6 +322,33 @@ func planRoutes(r *rand.Rand, V *model.Node, p []seg, f fault, base string) []ro
 		c, desc, err := mergeChain([]*model.Node{T, op2}, []string{src(0), src(1)}, nil, "merge-under")
 		return built{cfg: c, desc: desc, exactSrc: src(0)}, err
 	}})
+
+	// the same three constructions with the input spelled in dotted keys:
+	// folded namespaces and lists are created implicitly by the library
+	if V.Kind == model.KSub && !V.HasA {
+		fl := flattener{seed: r.Uint64()}
+		out = append(out, route{"dotted-keys", func(T *model.Node) (built, error) {
+			c, desc, err := mergeChain([]*model.Node{fl.flat(T)}, []string{src(0)}, nil, "dotted-keys")
+			return built{cfg: c, desc: desc, exactSrc: src(0)}, err
+		}})
+		out = append(out, route{"dotted-merge-overlay", func(T *model.Node) (built, error) {
+			op1 := without(T, p, nil)
+			op2 := spine(T, p, func(n *model.Node) *model.Node { return n.Copy() })
+			if last.isIdx {
+				par := getNode(op2, p[:len(p)-1])
+				for _, e := range getNode(T, p[:len(p)-1]).A[last.idx+1:] {
+					par.A = append(par.A, e.Copy())
+				}
+			}
+			c, desc, err := mergeChain([]*model.Node{fl.flat(op1), fl.flat(op2)}, []string{src(0), src(1)}, nil, "dotted-merge-overlay")
+			return built{cfg: c, desc: desc, exactSrc: src(1)}, err
+		}})
+		out = append(out, route{"dotted-merge-under", func(T *model.Node) (built, error) {
+			op2 := without(T, p, nil)
+			c, desc, err := mergeChain([]*model.Node{fl.flat(T), fl.flat(op2)}, []string{src(0), src(1)}, nil, "dotted-merge-under")
+			return built{cfg: c, desc: desc, exactSrc: src(0)}, err
+		}})
+	}
 
 	// (ii) append / prepend: the outermost list on the path is cut into
 	// segments delivered by different operands, which renumbers its elements
